@@ -17,11 +17,14 @@ from harness.lib.core import Rng
 
 
 def enc(k: Any) -> str:
-    """wire form of one request element (ints and strs are different dictionary keys in Python)."""
+    """wire form of one request element (ints and strs are different dictionary keys in Python; `True`, `1` and `1.0` are
+    the SAME key: they compare equal and hash alike, so `request_types[True]` finds NIC number 1)."""
     if isinstance(k, bool):
-        return "b:" + str(k)
+        return "i:" + str(int(k))
     if isinstance(k, int):
         return "i:" + str(k)
+    if isinstance(k, float) and k == k and k not in (float("inf"), float("-inf")) and k == int(k):
+        return "i:" + str(int(k))
     if isinstance(k, str):
         return "s:" + quote(k, safe="")
     return "o:" + quote(json.dumps(k, sort_keys=True, default=str), safe="")
@@ -146,7 +149,7 @@ def mutations(rng: Rng, path: List[Any], k: int = 4) -> List[List[Any]]:
     out = []
     n = len(path)
     for _ in range(k):
-        kind = rng.below(5)
+        kind = rng.below(8)
         i = rng.below(n) if n else 0
         if kind == 0 and n:
             out.append(path[:i] + path[i + 1:])
@@ -157,12 +160,18 @@ def mutations(rng: Rng, path: List[Any], k: int = 4) -> List[List[Any]]:
             out.append(path[:i])
         elif kind == 3:
             out.append(path + [rng.choice(["extra", 1, "root"])])
-        else:
+        elif kind == 4:
             j = rng.below(n) if n else 0
             q = list(path)
             if n:
                 q[i], q[j] = q[j], q[i]
             out.append(q)
+        elif kind == 5 and n:  # an element that cannot be a dictionary key at all (RequestFormat allows dicts as options)
+            out.append(path[:i] + [rng.choice([["x"], {"a": 1}, [], {}])] + path[i + 1:])
+        elif kind == 6 and n:  # non-string scalars: None, float, bool, negative int
+            out.append(path[:i] + [rng.choice([None, 1.5, True, -1, 0, ""])] + path[i + 1:])
+        else:                  # empty request / over-long request
+            out.append([] if rng.chance(1, 3) else path + ["extra"] * rng.range(2, 40))
     return out
 
 
@@ -297,6 +306,16 @@ def perturb(rng: Rng, sim, registry, vocab, steps: int) -> List[Any]:
             done.append(req)
         except Exception:
             pass
+        if rng.chance(1, 5):  # power events on NETWORK devices (routers, firewalls, switches): their routes must be power-gated too
+            try:
+                devs = [n for n in sim.network.nodes.values() if type(n).__name__ not in ("Computer", "Server", "Printer")]
+                if devs:
+                    n = rng.choice(devs)
+                    q = ["network", "node", n.config.hostname, "startup" if n.operating_state.name == "OFF" else "shutdown"]
+                    sim.apply_request(q)
+                    done.append(q)
+            except Exception:
+                pass
         if rng.chance(1, 6):  # churn: delete an existing file and create one of the same name again (and sometimes restore)
             try:
                 cands = [(n, fo, fi) for n in sim.network.nodes.values() for fo in n.file_system.folders.values() for fi in fo.files.values()]
